@@ -135,6 +135,9 @@ class WarmupBaseline(REINFORCEBaseline):
         if kw["epoch"] < self.n_epochs:
             self.alpha = (kw["epoch"] + 1) / float(self.n_epochs)
             log.info("Set warmup alpha = {}".format(self.alpha))
+        else:
+            # warmup is over, also if the callback of the last warmup epoch was never seen (e.g. resumed run)
+            self.alpha = 1.0
 
 
 class CriticBaseline(REINFORCEBaseline):
